@@ -363,6 +363,11 @@ def sched_check(ctx, oracle, profiles, nontrivial, witnesses=(), rule=''):
             ctx.broken('theorem/file %s' % pr['failing'], pr['log'],
                        {'source': 'proof', 'theorem': pr['failing']})
     if nmis and ctx.nviol == 0:
+        # model and implementation parted and the oracle saw nothing yet:
+        # search for a failing input (a) from the states where they parted,
+        # by random continuations of those histories, (b) at thorough depth
+        search_failing_input(ctx, results, oracle, profiles, escalate or not ctx.quick)
+    if nmis and ctx.nviol == 0:
         report_mismatches(ctx, results, 'scheduler/farm')
     elif nmis:
         ctx.note('correspondence_mismatch_explained_by_violation', True)
@@ -372,6 +377,34 @@ def sched_check(ctx, oracle, profiles, nontrivial, witnesses=(), rule=''):
             ctx.broken('known finding %s no longer reproduces: model (faithful to the finding) and code have diverged' % w,
                        'the directed witness in corpus/sched did not trigger', {'source': 'correspondence'})
     return results
+
+
+def search_failing_input(ctx, results, oracle, profiles, deep_done):
+    bad = [r for r in results if r.get('mismatch')][:4]
+    cont = []
+    for bi, r in enumerate(bad):
+        i = r['mismatch'][0]
+        for k in range(40):
+            cont.append({'seed': 'cont:%d:%d:%d' % (ctx.seed, bi, k), 'desc': r['desc'],
+                         'targets': r['graph']['tnames'][1:], 'events': r['events'][:i + 1],
+                         'extra': 30, 'profile': 'sched' if k % 2 else profiles[0]})
+    ctx.log('correspondence mismatch: searching %d continuations for a failing input' % len(cont))
+    run_corr(ctx, cont, oracle)
+    ctx.note('failing_input_search', {'continuations': len(cont), 'found': ctx.nviol > 0})
+    if ctx.nviol or deep_done:
+        return
+    cases = []
+    for p in profiles:
+        for i in range(300):
+            cases.append({'seed': '%d:deep:%s:%d' % (ctx.seed, p, i), 'nev': 80, 'profile': p,
+                          'nalg': 6 if i % 3 else 8, 'shape': 'fan' if i % 2 else 'random'})
+    ctx.log('searching %d more histories at thorough depth' % len(cases))
+    for k in range(0, len(cases), 150):
+        run_corr(ctx, cases[k:k + 150], oracle)
+        if ctx.nviol:
+            break
+    ctx.cov['failing_input_search']['deep_histories'] = len(cases)
+    ctx.cov['failing_input_search']['found'] = ctx.nviol > 0
 
 
 def sched_replay(ctx, obj, oracle):
